@@ -18,4 +18,7 @@ const RedisClusterSlots = 16384
 
 const ReqClusterNodes = "*2\r\n$7\r\ncluster\r\n$5\r\nnodes\r\n"
 
+// ReqAsking must precede a command that is re-sent because of an ASK redirect
+const ReqAsking = "*1\r\n$6\r\nASKING\r\n"
+
 const TitleSlowLog = "[SLOWLOG]"
